@@ -13,6 +13,9 @@ import BumpProof.Lemmas.CtrlEx
 import BumpProof.Lemmas.CtrlState
 import BumpProof.Lemmas.CtrlRealloc
 
+set_option linter.unusedSimpArgs false
+set_option linter.unusedVariables false
+
 namespace C13
 open Arena Rs Ctrl Lemmas
 
@@ -65,6 +68,34 @@ theorem shrinkSlice_optout (cfg : Cfg) (s : State) (ptr oldSize newSize ealign :
     shrinkSlice cfg s ptr oldSize newSize ealign = .ok (s, none) := by
   unfold shrinkSlice
   rw [hs]; rfl
+
+/-- forgetting a (ghost) block changes no statistic: with `step_deallocate_withoutDealloc` /
+    `step_deallocate_optout` / `step_deallocate_not_last` this says that such a `deallocate` leaves
+    `stats().allocated()` (and count, size, capacity, remaining) exactly as it was -/
+theorem stats_removeBlock (cfg : Cfg) (s : State) (b : Nat) : stats cfg (removeBlock s b) = stats cfg s := rfl
+
+/-- `WithoutShrink(&bump).shrink(..)` in a history (alignment fits): same address, the new size is
+    recorded, the arena (chunks, positions, statistics) is untouched -/
+theorem step_shrink_withoutShrink_fits (cfg : Cfg) (g : GState) (b : Nat) (blk : Block) (L : Layout)
+    (hL : L.Valid) (hp : g.s.prepared = none) (hb : findBlock g.s b = .ok blk) (hsz : L.size ≤ blk.size)
+    (hfit : alignFits blk.addr L.align = true) :
+    ∃ g', stepCore cfg g (.shrink b L .withoutShrink) = .ok (g', .block g.s.nextId blk.addr L.size) ∧
+      g'.s.chunks = g.s.chunks ∧ g'.s.cur = g.s.cur ∧ stats cfg g'.s = stats cfg g.s := by
+  refine ⟨{ g with s := (okOut (removeBlock g.s b) blk.addr L.size L.align (Nat.min blk.init L.size)).1 }, ?_, rfl, rfl, rfl⟩
+  rw [stepCore]
+  simp only [validLayout_ok hL, noPrepared, hp, Option.isNone_none, ↓reduceIte, R_pure_bind, R_ok_bind, hb,
+    show ¬ L.size > blk.size from by omega, decide_false,
+    shrinkWithoutShrink_fits cfg g.s blk.addr blk.size L hfit]
+  rfl
+
+/-- TARGET (not proved): with `SHRINKS = false` / `WithoutShrink` a shrink whose alignment does NOT fit
+    allocates a new block; the allocated byte count then grows, it never decreases.  Needs the
+    monotonicity of `alloc` on `stats().allocated()` (slow path included), which is part of the
+    accounting properties (C02/C03), not of this file. -/
+def shrink_optout_never_decreases_target : Prop :=
+  ∀ (cfg : Cfg) (s s' : State) (ptr oldSize : Nat) (newL : Layout) (r : Except AErr (Nat × Nat)),
+    shrinkWithoutShrink cfg s ptr oldSize newL = .ok (s', r) →
+    (stats cfg s).allocated ≤ (stats cfg s').allocated
 
 /-! ## Part 2: a block that is not the newest one -/
 
@@ -303,6 +334,14 @@ example : stepCore wCfg exG (.deallocate 0 .plain) = .ok ({ exG with s := remove
 
 example : shrink wCfg exG.s exBlk.addr exBlk.size { size := 8, align := 8 } = .ok (exG.s, .ok (exBlk.addr, exBlk.size)) :=
   shrink_not_last _ _ _ _ _ (by decide) rfl rfl
+
+example : stepCore wCfg exG (.deallocate 0 .withoutDealloc) = .ok ({ exG with s := removeBlock exG.s 0 }, .unit) :=
+  step_deallocate_withoutDealloc _ _ 0 exBlk rfl rfl
+
+example : ∃ g', stepCore wCfg exG (.shrink 0 { size := 8, align := 8 } .withoutShrink) =
+    .ok (g', .block 1 exBlk.addr 8) ∧ g'.s.chunks = exG.s.chunks ∧ g'.s.cur = exG.s.cur ∧
+      stats wCfg g'.s = stats wCfg exG.s :=
+  step_shrink_withoutShrink_fits _ _ 0 exBlk _ ⟨⟨3, by decide, rfl⟩, by decide⟩ rfl rfl (by decide) rfl
 
 /-- upwards: allocate 24 bytes at 0x10040, deallocate, allocate again: 0x10040 again -/
 example : isLast wCfg (setCurPos exUp 0x10058) 0x10040 24 = true ∧
